@@ -126,6 +126,8 @@ class Family:
             return self._render_dc(d, value_maker)
         if k == "stype":
             return self._render_stype(d)
+        if k == "boxed":
+            return self._render_boxed(d)
         if k == "raw":
             return d["src"]
         raise ValueError(k)
@@ -145,6 +147,36 @@ class Family:
         return (f"class {n}(SerializableType, use_annotations=True):\n" + common +
                 "    def _serialize(self) -> Tuple[datetime.date, int]:\n        return (self.a, self.b)\n"
                 "    @classmethod\n    def _deserialize(cls, value: Tuple[datetime.date, int]):\n        return cls(*value)\n")
+
+    def _render_boxed(self, d):
+        """a user class the library cannot serialize by itself, plus the SerializationStrategy registered for it (by
+        Config.serialization_strategy of every dataclass that mentions it, or by the field): a plain strategy object, one
+        with use_annotations=True (the library converts the annotated wire type), a SUBCLASS of such a strategy that
+        does not repeat the keyword, or the dict form with two callables."""
+        n, fl = d["name"], d["flavour"]
+        src = (f"class {n}:\n    def __init__(self, items):\n        self.items = list(items)\n"
+               f"    def __eq__(self, o):\n        return type(o) is type(self) and self.items == o.items\n"
+               f"    def __hash__(self):\n        return hash(tuple(self.items))\n"
+               f"    def __repr__(self):\n        return '{n}(%r)' % (self.items,)\n")
+        plain_ser = "[x.isoformat() for x in value.items]"
+        plain_de = f"{n}([datetime.date.fromisoformat(x) for x in value])"
+        if fl == "plain":
+            src += (f"class {n}_Strategy(SerializationStrategy):\n    def serialize(self, value):\n        return {plain_ser}\n"
+                    f"    def deserialize(self, value):\n        return {plain_de}\n{n}_S = {n}_Strategy()\n")
+        elif fl == "dict":
+            src += f"{n}_S = {{'serialize': (lambda value: {plain_ser}), 'deserialize': (lambda value: {plain_de})}}\n"
+        else:
+            base = f"{n}_Base" if fl == "annotated-sub" else f"{n}_Strategy"
+            src += (f"class {base}(SerializationStrategy, use_annotations=True):\n"
+                    f"    def serialize(self, value: {n}) -> List[datetime.date]:\n        return value.items\n"
+                    f"    def deserialize(self, value: List[datetime.date]) -> {n}:\n        return {n}(value)\n")
+            if fl == "annotated-sub":
+                src += f"class {n}_Strategy({n}_Base):\n    pass\n"
+            src += f"{n}_S = {n}_Strategy()\n"
+        return src
+
+    def boxed_in(self, t):
+        return sorted({n[1] for n in tast.walk(t) if n[0] == "boxed"})
 
     def _render_enum(self, d):
         base = d["base"]
@@ -199,6 +231,17 @@ class Family:
         return "\n".join(lines) + "\n"
 
     def _render_dc(self, d, value_maker):
+        need = set()
+        for f in d["fields"]:
+            if f.get("raw"):
+                continue
+            names = self.boxed_in(f["t"])
+            if names and "serialization_strategy" not in (f.get("meta") or {}):
+                need.update(names)
+        if need:
+            cfg = dict(d.get("config") or {})
+            cfg["serialization_strategy"] = "{" + ", ".join(f"{n}: {n}_S" for n in sorted(need)) + "}"
+            d["config"] = cfg
         bases = list(d.get("bases", ()))
         if d.get("mixin"):
             bases.append(d["mixin"])
